@@ -126,6 +126,8 @@ def d_row(fmt, row):
         return ["D", "Format", "nosuchformat" if row["val"] == "unknownfmt" else row["val"]]
     if tag == "good":
         return ["D", "Allowed characters", "32..."]
+    if tag == "narrow":
+        return ["D", "Allowed characters", "200...210"]  # none of the examples of the base fields is written in these
     if tag == "inapplicable":
         return {"delimited": ["D", "Sheet", "1"], "fixed": ["D", "Item delimiter", ";"]}.get(fmt, ["D", "Line delimiter", "lf"])
     if tag == "unknown":
@@ -320,6 +322,11 @@ def run(tier, report):
     result = core.tlc("MCCidLoad", "CidLoad_quick.cfg" if tier == "quick" else "CidLoad_deep.cfg", timeout=7000)
     core.require_coverage(result, ["ReadRow", "Finish"], "CidLoad")
     report.add_tlc("CidLoad: base CIDs x one defect of the catalogue at every applicable row x row-level rewrites", result)
+    pinned = core.tlc("MCCidLoad", "CidLoad_pinned_examples.cfg", expect_violation=True, coverage=False)
+    if pinned.violated != "AcceptedIffSound":
+        raise core.MachineryError("ExamplesJudgedWhenComplete = FALSE (D65) gave no counterexample")
+    report.notes["expected_counterexamples"] = [{"cfg": "CidLoad_pinned_examples.cfg", "violated": pinned.violated,
+                                                 "deviation": "D65 examples are judged only when the field is declared"}]
     vectors = result.by_tag("VEC")
     outcomes = core.parallel_map(_job, vectors, chunk=200)
     shapes = {}
